@@ -170,11 +170,14 @@ func (s *DB) Get(key []byte) ([]byte, error) {
 		return nil, common.ErrDBIsClosed
 	}
 
+	s.mutBatch.RLock()
 	if s.batch.IsRemoved(key) {
+		s.mutBatch.RUnlock()
 		return nil, common.ErrKeyNotFound
 	}
 
 	data := s.batch.Get(key)
+	s.mutBatch.RUnlock()
 	if data != nil {
 		return data, nil
 	}
@@ -197,11 +200,14 @@ func (s *DB) Has(key []byte) error {
 		return common.ErrDBIsClosed
 	}
 
+	s.mutBatch.RLock()
 	if s.batch.IsRemoved(key) {
+		s.mutBatch.RUnlock()
 		return common.ErrKeyNotFound
 	}
 
 	data := s.batch.Get(key)
+	s.mutBatch.RUnlock()
 	if data != nil {
 		return nil
 	}
